@@ -122,7 +122,60 @@ def case_strategy(tier):
                                              ("sub_comp", A, c, "cb"), ("unsub_comp", A, c, "all")])))
         return [], ops, draw(st.sampled_from([True, True, False]))
 
-    return st.one_of(st.tuples(pre, body, quiet), focused()).map(assemble)
+    def weave(draw, threads):
+        """Interleave per-agent operation lists (each keeps its own order) with deliver steps in between."""
+        threads = [list(t) for t in threads if t]
+        out = []
+        while threads:
+            i = draw(st.integers(0, len(threads) - 1))
+            out.append(threads[i].pop(0))
+            if not threads[i]:
+                threads.pop(i)
+            d = draw(st.sampled_from([None, None, (1, 0), (2, 1), (3, 7), (60, 0)]))
+            if d:
+                out.append(("deliver", d[0], draw(st.integers(0, 1000)) if d[1] else 0))
+        return out
+
+    # replica subscriptions: a host H, a subscriber A (subscribes to the computation then to its replicas, possibly
+    # after having recorded a replica itself), a third agent B; publications, subscriptions and deliveries interleave
+    @st.composite
+    def replica_story(draw):
+        c = draw(st.integers(0, 2))
+        H, A, B = draw(st.permutations([0, 1, 2]))
+        m = lambda: draw(st.sampled_from(MODES))
+        first = weave(draw, [[("reg_comp", c, H)],
+                             [("sub_comp", A, c, m())] + ([("sub_replica", A, c, m())] if draw(st.booleans()) else []),
+                             [("sub_comp", B, c, "nocb")] if draw(st.booleans()) else []])
+        if draw(st.booleans()):
+            first.append(("deliver", 60, 0))
+        second = weave(draw, [[("pub_replica", c, A)] if draw(st.booleans()) else [],
+                              [("sub_replica", A, c, m())] if draw(st.booleans()) else [],
+                              [("pub_replica", c, H)] if draw(st.booleans()) else [],
+                              [("pub_replica", c, B)] if draw(st.booleans()) else []])
+        # A's own replica first, then its first subscription with a callback
+        if draw(st.booleans()):
+            second = [("pub_replica", c, A), ("sub_replica", A, c, draw(st.sampled_from(["cb", "oneshot"])))] + second
+        third = weave(draw, [[draw(st.sampled_from([("pub_replica", c, H), ("pub_replica", c, B), ("unpub_replica", c, H),
+                                                    ("unpub_replica", c, B), ("unpub_replica", c, A)]))
+                              for _ in range(draw(st.integers(1, 3)))]])
+        return [], first + second + third, False
+
+    # agents leaving and (re-)joining while others are subscribed to them by name
+    @st.composite
+    def rejoin_story(draw):
+        X, A, B = draw(st.permutations([0, 1, 2]))
+        ops = weave(draw, [[("sub_agent", A, X, draw(st.sampled_from(MODES)))],
+                           [("sub_agent", B, X, draw(st.sampled_from(MODES)))] if draw(st.booleans()) else []])
+        for _ in range(draw(st.integers(1, 3))):
+            ops += [("unreg_agent", X, 0)]
+            ops += [("deliver", draw(st.sampled_from([1, 3, 60])), 0)] if draw(st.booleans()) else []
+            ops += [("reg_agent", X, 0)]
+            ops += [("deliver", draw(st.sampled_from([1, 3, 60])), 0)] if draw(st.booleans()) else []
+            if draw(st.integers(0, 3)) == 0:
+                ops += [("sub_agent", A, X, "nocb")]
+        return [], ops, draw(st.booleans())
+
+    return st.one_of(st.tuples(pre, body, quiet), focused(), replica_story(), rejoin_story()).map(assemble)
 
 
 class Sub:
@@ -178,6 +231,7 @@ def run_case(case):
         subs = {(a, k, x): Sub() for a in AGENTS for k in ("agent", "comp", "replica")
                 for x in (AGENTS if k == "agent" else COMPS)}
         racy = set()                # computations re-registered while another agent's messages about them were in flight
+        rejoin_count = {}
         tainted_agents = set()      # agents that were un-registered at some point: everything about them is excluded
         changed_at = {}             # (kind, item) -> op index of last change
         interleaved = [False]
@@ -225,7 +279,12 @@ def run_case(case):
                     item = COMPS[o[2]]
                 else:
                     item = COMPS[o[1]]
-                if inflight(item) or kind == "move_comp":
+                # The listed race needs two versions of the item in flight: a change (or an un-subscription, whose
+                # effect depends on what is still travelling) issued while messages about the item are in flight.
+                # A first subscription racing with a publication is not part of it: whichever the directory handles
+                # first, the subscriber must end with the directory's data.
+                plain_sub = kind.startswith("sub_") and not subs[(AGENTS[o[1]], kind[4:], item)].ended_at
+                if (inflight(item) and not plain_sub) or kind == "move_comp":
                     racy.add(item)
             if kind == "deliver":
                 if net.pending():
@@ -233,10 +292,12 @@ def run_case(case):
                 deliver(o[1], o[2])
             elif kind == "reg_agent":
                 a = AGENTS[o[1]]
-                if a not in registered and a not in tainted_agents:
+                if a not in registered:
+                    # a (re-)joining agent; after a leave it comes back with another address
                     registered.add(a)
                     changed_at[("agent", a)] = idx
-                    api(disc[a].register_agent, a, "addr_" + a)
+                    rejoin_count[a] = rejoin_count.get(a, 0) + (1 if a in tainted_agents else 0)
+                    api(disc[a].register_agent, a, "addr%s_%s" % (rejoin_count[a] or "", a))
             elif kind == "unreg_agent":
                 a = AGENTS[o[1]]
                 if a in registered and not any(h == a for h in host.values()) and not any(a in r for r in replicas.values()):
@@ -294,8 +355,11 @@ def run_case(case):
                 x = (AGENTS if k == "agent" else COMPS)[o[2]]
                 if a not in registered:
                     continue
-                if k == "replica":
-                    try:  # replica operations document 'unknown computation' as an error: the agent must know it
+                if k == "replica" and not subs[(a, "comp", x)].dir_subscribed:
+                    # every caller in the code base makes sure the computation is known to its discovery (or at least
+                    # subscribed to, so that FIFO brings its registration first) before dealing with its replicas:
+                    # a replica notification for a computation the agent cannot know is dropped with an error
+                    try:
                         with under_test():
                             disc[a].computation_agent(x)
                     except UnderTestError:
@@ -361,8 +425,8 @@ def run_case(case):
         for (a, k, x), s in sorted(subs.items()):
             if not s.dir_subscribed or s.ambiguous or a in tainted_agents or a not in registered:
                 continue
-            if k == "agent" and x in tainted_agents:
-                continue
+            if k == "agent" and x in tainted_agents and not rejoin_count.get(x):
+                continue   # the agent left and never came back: nothing to converge to
             if k == "agent":
                 exp = _get(ddisc.agent_address, x)
                 got = _get(disc[a].agent_address, x)
